@@ -4,6 +4,9 @@ import "time"
 
 // The registered harness runs per property.  Parameters are the stated bounds.
 var checks = map[string][]HarnessSpec{
+	"C03": {
+		{Name: "HarnessC03Select", Pkg: "bql", Quick: map[string]int{"K": 2, "TEMPORAL": 1}, Thorough: map[string]int{"K": 3, "TEMPORAL": 1}, ThoroughWall: 90 * time.Minute},
+	},
 	"C10": {
 		{Name: "HarnessC10Join", Pkg: "bql", Quick: map[string]int{"ROWS": 2, "SHARED": 1, "KINDS": 0}, Thorough: map[string]int{"ROWS": 3, "SHARED": 1, "KINDS": 0}},
 		{Name: "HarnessC10Join", Pkg: "bql", Quick: map[string]int{"ROWS": 2, "SHARED": 2, "KINDS": 0}, Thorough: map[string]int{"ROWS": 3, "SHARED": 2, "KINDS": 0}},
@@ -121,6 +124,7 @@ func assumptionsFor(prop string) []string {
 }
 
 var propAssumptions = map[string][]string{
+	"C03": {"the statement is concrete (17 one- and two-clause shapes of the conjunctive fragment: constants, new and repeated bindings in every position, anchored and anchor-binding predicates, joins on one and two bindings, a product, an existence clause), the data is symbolic: K triples over the universe /u<a|b>, predicate a|b immutable or temporal at one of two anchors, object node or text", "whole pipeline executed from text: lexer, parser, semantic hooks, planner, memory driver, with its goroutines (canonical schedule; rows compared as a multiset)", "reference: brute-force assignments clause -> stored triple, compared fork-free (every row is a solution, every solution is a row, row count = number of solutions)"},
 	"C10": {"kernel: Table.LeftOptionalJoin on two tables of <= ROWS rows sharing 0, 1 or 2 bindings; join cells are one symbolic byte over {a,b} (string cells; with KINDS>0 also text-literal and node cells); rows are tagged with id columns so every output row is attributed to its (left,right) pair", "the end-to-end OPTIONAL obligations (through the planner) are listed in the same evidence when registered"},
 	"C11": {"kernel: Table.Reduce with count, count distinct and int64 sum on <= ROWS rows, grouping cells one symbolic byte over {a,b}, values symbolic in [-3,3]; sort.Sort interpreted from its source", "float sums are not covered"},
 	"C12": {"int64 keys: full 64-bit range through ToComparableString (%032d, witness digits), decided by cvc5 --solve-bv-as-int=sum", "time keys and float keys: concrete pools (enumerated, not solved)", "permutation: string cells of one symbolic byte over {a,b,c}, one or two keys, every direction combination", "LIMIT clause: text of an optional sign and up to D symbolic bytes from '/'..':' with type int64/float64/text, through the real lexer, parser and hooks"},
